@@ -573,6 +573,10 @@ def run_batch(ctx, exe, defs, name, keep=False, depth=0):
             violations.append({"what": "a definition built to be accepted was not (generator status / facts)", "failing_input": {"syntax": "dsl", "text": c["text"]},
                                "implementation": gen_common.canon_status(r), "message": r.get("message")})
             continue
+        for fsn, gn, en, raw in unchecked_getter_oracle(r["facts"]):
+            if not any(x.get("cfg") for e in r["facts"].get("enums", []) for x in e["from_arms"]):
+                violations.append({"what": f"getter {fsn}::{gn} converts with unwrap_unchecked but enum {en} has no conversion for raw value {raw}",
+                                   "failing_input": {"syntax": "dsl", "text": c["text"], "raw_value": raw}})
         mod = f"m{i}"
         first = len(sites)
         blocks.append(site_code(mod, d, meta, r["facts"], sites))
@@ -681,6 +685,73 @@ def miri_subset(ctx, exe, rng):
     return {"ran": True, "ub": False, "sites": len(complete), "values": sum(len(v) for v in bs.values())}, []
 
 
+def unchecked_getter_oracle(facts):
+    """The property itself, on the real token stream: every getter that converts with `unwrap_unchecked` (conv
+    unsafe_into) must target a generated enum whose conversion is defined for EVERY bit pattern the field can hold:
+    an `impl From` (wildcard arm to a catch-all/default), or arms for all raw values 0..2^w-1.
+    Returns a list of (field set, getter, enum, first uncovered raw value)."""
+    enums = {e["name"]: e for e in facts.get("enums", [])}
+    bad = []
+    for fs in facts.get("field_sets", []):
+        for g in fs["getters"]:
+            if g["conv"] != "unsafe_into":
+                continue
+            en = g["ret"].split("::")[-1]
+            e = enums.get(en)
+            if e is None:
+                bad.append((fs["name"], g["name"], en, "no generated enum of that name"))
+                continue
+            wild = [a for a in e["from_arms"] if a["pattern"] == "wild"]
+            if wild and not str(wild[0].get("target", "")).startswith("err"):
+                continue
+            w = g["end"] - g["start"]
+            listed = {int(a["pattern"]) for a in e["from_arms"] if a["pattern"] != "wild" and not a.get("cfg")}
+            if w > 16:
+                bad.append((fs["name"], g["name"], en, f"fallible conversion on a {w}-bit field"))
+                continue
+            signed = g["carrier"].startswith("i")
+            cb = int(g["carrier"][1:])
+            for raw in range(1 << w):
+                v = raw - (1 << cb) if (signed and w == cb and raw >= (1 << (cb - 1))) else raw
+                if v not in listed:
+                    bad.append((fs["name"], g["name"], en, raw))
+                    break
+    return bad
+
+
+def must_reject_probe(ctx, exe):
+    """Non-try enums with neither default nor catch-all that miss at least one bit pattern (every choice of the missing
+    value for widths 1..3, gaps and one-short lists for width 4): the property demands rejection. If the generator
+    accepts one, the unchecked getter it emits is undefined for the missing pattern."""
+    V = adef.mk_variant
+    defs = []
+    for w in (1, 2, 3, 4):
+        full = list(range(1 << w))
+        shapes = [[x for x in full if x != miss] for miss in (full if w <= 3 else [0, 7, 15])]
+        shapes += [full[:-2], full[1:]] if w >= 2 else []
+        for vals in shapes:
+            if not vals:
+                continue
+            for explicit in (False, True):
+                vs = [V(vname(i), v if (explicit or v != i) else None) for i, v in enumerate(vals)]
+                cfgd = adef.mk_config(register_address_type="u8", default_byte_order="LE")
+                defs.append({"config": cfgd, "objects": [adef.mk_register("Ra", 0, 8, [adef.mk_field("alpha", "uint", 0, w, conv=adef.mk_enum("En", vs, use_try=False))])]})
+    cases = [{"id": f"r{i}", "syntax": "dsl", "text": adef.to_dsl(d), "name": "Dev", "want": ["facts"]} for i, d in enumerate(defs)]
+    res = gen_common.run_gen(ctx, exe, cases, tag="mustrej")
+    viol = []
+    for c in cases:
+        r = res[c["id"]]
+        if r.get("status") == "ok":
+            bad = unchecked_getter_oracle(r.get("facts") or {})
+            viol.append({"what": "a non-try enum without default/catch-all that misses a bit pattern was accepted" +
+                                 ("; its getter returns the enum without a Result and is undefined (unwrap_unchecked on Err) for raw value %s" % bad[0][3] if bad else ""),
+                         "failing_input": {"syntax": "dsl", "text": c["text"], "raw_value": bad[0][3] if bad else None},
+                         "implementation": "accepted" + (", getter conv unsafe_into" if bad else ""), "model_and_spec": "rejected (enum_not_covered)"})
+        elif r.get("status") != "error":
+            viol.append({"what": "generator " + str(r.get("status")), "failing_input": {"syntax": "dsl", "text": c["text"]}})
+    return len(cases), viol
+
+
 def run(ctx):
     _big_stack()
     info = vlib.coq_gate(ctx)
@@ -715,6 +786,9 @@ def run(ctx):
         nlines += nl
         violations += viol
         stats.update(st)
+    nrej, rv = must_reject_probe(ctx, exe)
+    nlines += nrej
+    violations += rv
     probe, bad = int_full_width_probe(ctx, exe)
     if bad:
         violations.append(bad)
